@@ -2,7 +2,7 @@
 from .. import tables
 from ..callgraph import norm
 from ..cfg import Cfg, reach
-from ..common import (body_by_name, callee_names, last_named_field, logic_body, ref_field_of_local,
+from ..common import (body_by_name, callee_names, family, last_named_field, logic_body, ref_field_of_local,
                       switch_atom)
 from ..facts import callee, const_int, op_const, op_local, op_place
 from ..flow import Flow, identity_through
@@ -239,6 +239,7 @@ def receive_rule(rep, prog, cfg, fn, flavour):
     rep.check(not atom.get("manufactured"), rule, "%s/%s classified count is the read result" % (cfg, flavour), b.loc(b.blocks[atom["bb"]]["ts"]),
               "the value tested against 0 after the read can also be the constant %s assigned by %s itself: a read error folded into a "
               "0-byte read is reported as an end of stream (clean on a response boundary) instead of the transport's error" % (atom.get("manufactured"), fn))
+    helper_count_rule(rep, prog, cfg, flavour, b, rule)
     region = g.reach([zero_t])
     clean = ok_none_blocks(b) & region
     if not clean:
@@ -316,6 +317,28 @@ def receive_rule(rep, prog, cfg, fn, flavour):
     rep.check(not leaks and bool(eofs & region), rule, "%s/%s otherwise UnexpectedEof" % (cfg, flavour), where,
               "after a 0-byte read there is a way to return that is neither the clean Ok(None) nor an io::Error of kind UnexpectedEof")
     deliver_first(rep, cfg, flavour, b, g)
+
+
+def helper_count_rule(rep, prog, cfg, flavour, b, rule):
+    """The read helper's result is the transport's own answer: the value it returns derives from the transport read (through
+    `?`), never from a constant put there for some error kind (`Interrupted => 0` makes the callers see an end of stream)."""
+    for bb, t in b.calls():
+        for n in callee_names(t):
+            if n in READS and n not in READS_EXT:
+                for hb in body_by_name(prog, n):
+                    consts = set()
+                    reads = False
+                    for fb in family(prog, hb):
+                        fl2 = Flow(fb)
+                        leaves, _ = fl2.sources([0], through_call=identity_through, follow_mut=False)
+                        for leaf in leaves:
+                            if leaf[0] == "const" and str(leaf[1]).rstrip("_usize").isdigit():
+                                consts.add(str(leaf[1]))
+                            if leaf[0] == "call" and any(x in READS_EXT for x in callee_names(fb.blocks[leaf[1]]["t"])):
+                                reads = True
+                    rep.check(reads and not consts, rule, "%s/%s %s returns the transport's count" % (cfg, flavour, n.rsplit("::", 1)[-1]), hb.loc(hb.span),
+                              "the read helper %s can return a count that is the constant %s rather than what the transport reported (or its result does "
+                              "not derive from the transport read): its callers classify 0 as the end of the stream" % (n, sorted(consts)))
 
 
 def deliver_first(rep, cfg, flavour, b, g):
@@ -418,6 +441,7 @@ def connect_rule(rep, prog, cfg, fn, flavour):
     rep.check(not atom.get("manufactured"), rule, "%s/%s classified count is the read result" % (cfg, flavour), b.loc(b.blocks[atom["bb"]]["ts"]),
               "the value tested against 0 after the read can also be the constant %s assigned by %s itself (a read error folded into a 0-byte read)"
               % (atom.get("manufactured"), fn))
+    helper_count_rule(rep, prog, cfg, flavour + " connect", b, rule)
     eofs = eof_error_blocks(b)
     other = reach(g.succs, [zero_t], avoid=list(eofs))
     leaks = [x for x in other if b.blocks[x]["t"]["k"] == "return"]
